@@ -530,12 +530,23 @@ def trace_call(variant, opts, route, nprocesses):
                 cfg['noise_mode'] = 'flip'
             out = getattr(S, base)(x, **cfg)
             out = out[0] if isinstance(out, tuple) else out
-        elif route == 'partial':
+        elif route in ('partial', 'partial-reconfigured'):
             base = variant.split('[')[0]
             cfg = S.get_config(base)
-            for k, v in o.items():
-                for kk, vv in v.items():
-                    cfg[k + '/' + kk] = vv
+            if route == 'partial-reconfigured':
+                # a history on ONE config object: a callable is obtained (and used) before the options are supplied, then every option
+                # dictionary is replaced wholesale (the idiom of the sift docstring), then a callable is obtained again
+                try:
+                    cfg.get_func()(x)
+                except Exception:
+                    pass
+                open(logpath, 'w').close()          # (the stage calls of the warm-up run are not the ones judged)
+                for k, v in o.items():
+                    cfg[k] = dict(cfg[k], **v)
+            else:
+                for k, v in o.items():
+                    for kk, vv in v.items():
+                        cfg[k + '/' + kk] = vv
             cfg['max_imfs'] = 2
             if 'nprocesses' in cfg:
                 cfg['nprocesses'] = nprocesses
@@ -678,7 +689,7 @@ def replay(w):
 
 
 def refute(tier, seed, emit):
-    routes = ('kwargs', 'config', 'partial')
+    routes = ('kwargs', 'config', 'partial', 'partial-reconfigured')
     nps = (1, 2) if tier == 'quick' else (1, 2, 3)
     grid = OPTS_GRID[:2] if tier == 'quick' else OPTS_GRID
     emit.scope('%d variants x %d option sets (stop rule / step / thresholds, interpolation method, pad width / parabolic / custom np.pad options) x delivery routes %s x nprocesses %s: effective keyword arguments seen by get_next_imf, interp_envelope and get_padded_extrema in the parent and in forked workers' % (len(VARIANTS), len(grid), list(routes), list(nps)), exhaustive=True)
